@@ -68,6 +68,8 @@ func caseGen() *rapid.Generator[Case] {
 				to := itemGen().Draw(t, "to")
 				c.Acts = append(c.Acts, Act{K: "mutate", Op: &gen.Op{K: "mutate", Ref: rapid.IntRange(0, 5).Draw(t, "ref"), Cap: rapid.IntRange(0, 3).Draw(t, "cell"),
 					Items: []gen.Item{{K: "str", S: to.S, G: to.G, E: to.E, N: to.N}}}})
+			} else if kind == 7 {
+				c.Acts = append(c.Acts, Act{K: "copycell", Op: &gen.Op{K: "copycell", Ref: rapid.IntRange(0, 5).Draw(t, "ref"), Cap: rapid.IntRange(0, 3).Draw(t, "cell"), To: rapid.IntRange(0, 5).Draw(t, "to")}})
 			} else if kind == 8 {
 				c.Acts = append(c.Acts, Act{K: "faulty", Style: rapid.SampledFrom(palette).Draw(t, "style"), Reuse: rapid.Bool().Draw(t, "reuse"),
 					FaultK: rapid.IntRange(0, 12).Draw(t, "k"), FaultMode: rapid.SampledFrom([]string{"from", "once", "partial"}).Draw(t, "mode")})
